@@ -792,6 +792,10 @@ def check_property(prop, tier="quick", repo=None, only_unit=None, only_target=No
             if k:
                 known_hits.append((k, f))
                 continue
+            if ".unwind." in f["name"] or f["description"].startswith("unwinding assertion"):
+                # the unwinding bound was too small for this code: a limit of the bounded stand-in, not a violation
+                undecided.append("%s: %s: unwinding bound exceeded (%s)" % (label, f["name"], f["description"]))
+                continue
             if f["description"].startswith(("stub:", "model:")):
                 # a stub met a use it does not model: tool limit, not a property violation
                 undecided.append("%s: %s: %s (the assumed model does not cover this use)" % (label, f["name"], f["description"]))
